@@ -448,6 +448,19 @@ func c25StructDomain() []any {
 	return out
 }
 
+// c25JSONOnlyDomain: Go strings are byte strings; the JSON serializer (sonic ConfigFastest) passes
+// bytes that are not valid UTF-8 through unchanged in both directions, so such values are in its
+// supported domain (seeded change C25: a validating configuration silently rewrites them to U+FFFD).
+// They are not offered to CBOR, whose text strings are UTF-8 by specification.
+func c25JSONOnlyDomain() []any {
+	bad := []string{"key-\xff\xfe\x80-end", "\xc3", "a\xe2\x82", "\xed\xa0\x80", "<&>\u2028"}
+	var out []any
+	for _, s := range bad {
+		out = append(out, &c25JMsg{A: s, N: 1, L: []string{s}}, &c25Other{X: s, Y: 2}, s)
+	}
+	return out
+}
+
 func c25TimeDomain() []any {
 	base := int64(946684800) // 2000-01-01
 	var out []any
@@ -838,7 +851,7 @@ func TestVerifC25(t *testing.T) {
 	sers := []c25Ser{
 		{"proto", c25Proto, c25ProtoDomain()},
 		{"cbor", c25CBOR, append(append(c25TimeDomain(), c25PrimitiveDomain()...), c25StructDomain()...)},
-		{"json", c25JSON, append(append(c25TimeDomain(), c25PrimitiveDomain()...), c25StructDomain()...)},
+		{"json", c25JSON, append(append(append(c25TimeDomain(), c25PrimitiveDomain()...), c25StructDomain()...), c25JSONOnlyDomain()...)},
 		{"terminated", &terminatedSerializer{}, c25TerminatedDomain()},
 		{"poisonpill", &poisonPillSerializer{}, []any{new(PoisonPill)}},
 		{"delivery", new(commands.DeliverySerializer), c25DeliveryDomain()},
